@@ -515,7 +515,7 @@ func resolveFrame(w *World, d OpDesc, recv *Member, client int) *Exec {
 			out := frameOutcome(res, ex.Desc, client, true)
 			// which representative is kept is unspecified: compare the key classes only
 			o := obs.Of(res)
-			if !o.HasErr {
+			if !o.HasErr && o.Bad == "" {
 				keyCols := cols
 				if len(keyCols) == 0 {
 					keyCols = o.Names
